@@ -486,7 +486,7 @@ def run_C09(ctx):
     # sweep of the export moment: after every number of units t = 1..N processed in one call, export / import, continue —
     # against the uncut run (implementation against itself; one configuration per length, taking turns)
     sgroups, sall = [], []
-    N = SWEEP_T_THOROUGH if ctx.thorough else SWEEP_T
+    N = SWEEP_T_THOROUGH if ctx.thorough else (32 if light() else SWEEP_T)
     for mode in BLOCK_MODES:
         pool = [x for x in matrix_for(mode) if x[0] <= 8]
         cfgs = rng.sample(pool, min(4, len(pool)))
@@ -1134,7 +1134,7 @@ def run_C16(ctx):
             allc.append(x)
     # sweep of the cloning moment: clone after every number of units t = 1..N processed (in one call or two); the clone and the
     # original must both continue like a fresh instance
-    N = SWEEP_T_THOROUGH if ctx.thorough else SWEEP_T
+    N = SWEEP_T_THOROUGH if ctx.thorough else (32 if light() else SWEEP_T)
     for (fam, mode) in targets:
         base = mode if fam in ("stream", "core") else ("cbc-enc" if fam == "buf" else mode)
         pool = [q for q in matrix_for(base) if q[0] <= (16 if fam in ("stream", "core") else 8)]
